@@ -49,6 +49,9 @@ def run(ctx: Ctx, rep: Report) -> None:
     # become(deepcopy=True) shares no nested container with its source
     from ..rules.deepbranch import rule_deep_branch
     rule_deep_branch(ctx, rep, circ)
+    # cached singletons hand (args, kwargs) back to pickle
+    from .cached_pickle import newargs
+    newargs(ctx, rep)
     reserved(ctx, rep, pdata)
     reduce_rule(ctx, rep)
     state_rule(ctx, rep)
